@@ -1,7 +1,8 @@
 (** Routing — executable model of /repo's [packetHandlerMap] (transport.go: Add, Get,
     AddWithConnID, Remove, ReplaceWithClosed with its removal timer, reset tokens) and of
     the closed-connection stand-ins of closed_conn.go. Definitions only.
-    Time is the field [rt_now]; a timer is (absolute firing time, IDs it deletes). *)
+    Time is the field [rt_now]; a timer is (absolute firing time, IDs, the stand-in it
+    installed): when it fires it deletes those of its IDs that still map to that stand-in. *)
 From Coq Require Import List ZArith Bool.
 From V Require Import Lib.Hex ConnIDs.Model.
 Import ListNotations.
@@ -19,7 +20,7 @@ Record lstate := mkL { l_cnt : Z; l_psize : Z; l_recv : Z; l_sent : Z }.
 Record rt := mkRT {
   rt_handlers : list (cid * hkind);     (* handlers map, keys unique *)
   rt_tokens : list (Z * Z);             (* resetTokens: token -> connection *)
-  rt_timers : list (Z * list cid);      (* pending time.AfterFunc of ReplaceWithClosed *)
+  rt_timers : list (Z * list cid * hkind); (* pending time.AfterFunc of ReplaceWithClosed *)
   rt_now : Z;
   rt_nlocal : Z;                        (* closedLocalConn created so far *)
   rt_locals : list (Z * lstate)         (* closedLocalConn j -> its state *)
@@ -39,17 +40,30 @@ Fixpoint hdel (c : cid) (l : list (cid * hkind)) : list (cid * hkind) :=
   end.
 Definition hset (c : cid) (h : hkind) (l : list (cid * hkind)) := (c, h) :: hdel c l.
 
-Definition del_all (ids : list cid) (hs : list (cid * hkind)) := fold_left (fun h c => hdel c h) ids hs.
+Definition hkind_eqb (a b : hkind) : bool :=
+  match a, b with
+  | HConn x, HConn y => x =? y
+  | HLocal x, HLocal y => x =? y          (* one closedLocalConn per ReplaceWithClosed call *)
+  | HRemote, HRemote => true               (* &closedRemoteConn{} is a zero-size allocation: all equal *)
+  | _, _ => false
+  end.
+
+(** [if h.handlers[id] == handler { delete(h.handlers, id) }] for every id of the timer *)
+Definition del_if (k : hkind) (ids : list cid) (hs : list (cid * hkind)) :=
+  fold_left (fun h c => match hget c h with
+                        | Some k' => if hkind_eqb k' k then hdel c h else h
+                        | None => h
+                        end) ids hs.
 Definition set_all (ids : list cid) (k : hkind) (hs : list (cid * hkind)) := fold_left (fun h c => hset c k h) ids hs.
 
-(** timers whose time has come delete their IDs, whatever these are mapped to by now *)
-Fixpoint fire (now : Z) (timers : list (Z * list cid)) (hs : list (cid * hkind))
-  : list (Z * list cid) * list (cid * hkind) :=
+(** timers whose time has come retire the entries they installed (and only those) *)
+Fixpoint fire (now : Z) (timers : list (Z * list cid * hkind)) (hs : list (cid * hkind))
+  : list (Z * list cid * hkind) * list (cid * hkind) :=
   match timers with
   | [] => ([], hs)
-  | (t, ids) :: r =>
-    if t <=? now then fire now r (del_all ids hs)
-    else let (r', hs') := fire now r hs in ((t, ids) :: r', hs')
+  | (t, ids, k) :: r =>
+    if t <=? now then fire now r (del_if k ids hs)
+    else let (r', hs') := fire now r hs in ((t, ids, k) :: r', hs')
   end.
 
 Fixpoint zget {A} (k : Z) (l : list (Z * A)) : option A :=
@@ -97,7 +111,7 @@ Definition rt_step_raw (o : rop) (s : rt) : rt * rres :=
   | RRemove c => (with_handlers s (hdel c (rt_handlers s)), rr_none)
   | RReplace ids local ex psize =>
     let k := if local then HLocal (rt_nlocal s) else HRemote in
-    (mkRT (set_all ids k (rt_handlers s)) (rt_tokens s) (rt_timers s ++ [(rt_now s + ex, ids)]) (rt_now s)
+    (mkRT (set_all ids k (rt_handlers s)) (rt_tokens s) (rt_timers s ++ [(rt_now s + ex, ids, k)]) (rt_now s)
           (if local then rt_nlocal s + 1 else rt_nlocal s)
           (if local then (rt_nlocal s, mkL 0 psize 0 0) :: rt_locals s else rt_locals s), rr_none)
   | RAdvance d =>
